@@ -9,11 +9,10 @@
 //
 // run: BT_REPO=<repo> ./run.sh F24_start_enc_rsp_without_key.cpp $BT_REPO/tests/test_tools/test_radio.cpp \
 //        $BT_REPO/tests/test_tools/test_servers.cpp $BT_REPO/tests/test_tools/hexdump.cpp \
-//        $BT_REPO/bluetoe/link_layer/*.cpp $BT_REPO/bluetoe/utility/address.cpp
+//        $BT_REPO/bluetoe/link_layer/*.cpp $BT_REPO/bluetoe/utility/address.cpp -lboost_unit_test_framework
 #include "replay_common.hpp"
 
-#define BOOST_TEST_NO_MAIN
-#include <boost/test/included/unit_test.hpp>
+#include <boost/test/unit_test.hpp>   // declarations only: connected.hpp / test_radio.cpp refer to BOOST_CHECK
 
 #include <../link_layer/connected.hpp>
 #include <bluetoe/pairing_status.hpp>
